@@ -1,15 +1,15 @@
 SPEC = {
-    "claimed": False,
+    "claimed": True,
     "gen": [],
-    "theorems": ["C10_nonvacuous"],
+    "theorems": ['C10_observational', 'C10_after_delta', 'C10_recycle', 'C10_nonvacuous'],
     "allowed_axioms": [],
     "extract": {
         "LibTw2.Model.Snap": ['add_item', 'raw_items', 'raw_item', 'crc', 'raw_write_to_ints', 'raw_write_bytes', 'raw_read_from_ints', 'raw_read_bytes', 'create_raw', 'raw_read_with_delta', 'k09', 'delta_write_to_ints', 'delta_write_bytes', 'delta_read_from_ints', 'delta_read_bytes', 'builder_new', 'builder_add', 'builder_finish', 'snap_recycle', 'snap_items', 'snap_item', 'snap_read_from_ints', 'snap_read_bytes', 'snap_read_with_delta', 'raw_empty', 'snap_empty', 'delta_empty', 'uuid_of_bytes', 'uuid_to_bytes', 'key_to_raw_type_id', 'key_to_id'],
     },
-    "components": [{"bin": "snap", "driver": "drv_snap", "args": ["c10"], "timeout": {"quick": 900, "thorough": 3000}}],
+    "components": [{"bin": "snap", "driver": "drv_snap", "args": ["c10"], "timeout": {"quick": 1200, "thorough": 6000}}],
     "release": False,
     "rule": "see components.snap.rule",
-    "trusted_base": [],
-    "assumptions": [],
-    "explanation": "",
+    "trusted_base": ['Model/Snap.v is hand-written from snapshot/src/snap.rs and snapshot/src/format.rs (RawSnap as a key-sorted association list + flat buffer, every assert/unwrap/slice/debug overflow an explicit Panic site); it is tied to the code by the component `snap` (same scripts through the real crate and the extracted model)', "write_impl is modelled as 'all ints, then the capacity check' (a CapacityError and a later panic can only compete on snapshots that break raw_ok, which never happens: snap_ints_spec)", 'varints: Model/Varint.v and its C08 theorems (read_write_int, read_int_arith, read_int_a_consumes)'],
+    "assumptions": ['builder calls are valid (ops_ok): ordinal type ids in 1..0x3fff (Builder::add_item asserts it), ids u16, data i32, UUIDs 128-bit', 'C10_after_delta: the two snapshots are outside K09 on their raw keys (two independent builders may number the same UUID types differently)', "C10_recycle: 'succeeds' is stated with its exact side conditions (number space not exhausted, item/size limits leave room for the registry item and the item)"],
+    "explanation": "C10_observational: for every list of valid Builder::add_item calls (any mix of ordinal and UUID types, failed calls included) the finished snapshot written as ints or bytes reads back without warning to a snapshot with the same items(), the same item(type,id) for every ordinal or UUID type and the same crc; C10_after_delta: the same for read_with_delta(A, create(A,B)); C10_recycle: recycle of any such copy returns a builder with the same registry and next number, known types keep their number, a new UUID type gets a number no type had. Proved via the builder invariant bstate (Proofs/SnapBuilder*.v) and build_from_raw's characterisation (Proofs/SnapReg.v). On the unfixed tree this was refuted by defect #8 (fixed: ebb1170).",
 }
